@@ -317,7 +317,7 @@ def scenario(ctx):
     rig.journal[:] = []          # Hello traffic is not part of the judged history
     for rec in peers.values():
         rec['nsent'] = len(rec['sent'])
-    budget = [3 + ds.choose(28)]
+    budget = [3 + ds.choose(28 * (3 if ctx.tier == 'thorough' else 1))]
 
     def some_dest():
         k = ds.weighted([5, 3, 1, 1])
@@ -446,9 +446,9 @@ def scenario(ctx):
         process_journal()
 
     rig.after_step = invariant
-    sched.run(1000, extra, invariant)
+    sched.run(1000 * (3 if ctx.tier == 'thorough' else 1), extra, invariant)
     budget[0] = 0
-    ok = sched.drain(1000, None, invariant)
+    ok = sched.drain(1000 * (3 if ctx.tier == 'thorough' else 1), None, invariant)
     if not ok:
         raise Violation('C14/liveness', 'no quiescence', 'drain did not reach quiescence')
     # ---- per (sender, receiver) order -----------------------------------------------------
